@@ -169,6 +169,7 @@ class LineGen:
             # ids that are paths: prefixes of one another, through another object's inner directories, escaping
             self.ids = list(rng.choice([["a", "a/v1/x", "a/b", "z"], ["coll/2024/rep1", "coll/2024/rep2", "coll"], ["../esc", "ok", "ok/../../y"],
                                         ["p", "p/v1/content", "p/extensions/e"]]))
+        self.big = big
         self.files = rng.sample(NAMES[:-1], rng.randint(3, 6)) + (["big.bin"] if big else [])
         self.k = 0
 
@@ -176,7 +177,7 @@ class LineGen:
         rng = self.rng
         for i, f in enumerate(self.files):
             if f == "big.bin":
-                n = rng.choice([5 * 1024 * 1024 + 1, 5 * 1024 * 1024, 10 * 1024 * 1024 + 7, 5 * 1024 * 1024 - 1])
+                n = rng.choice([5 * 1024 * 1024 + 1, 10 * 1024 * 1024 + 7] if self.big == "multipart" else [5 * 1024 * 1024 + 1, 5 * 1024 * 1024, 10 * 1024 * 1024 + 7, 5 * 1024 * 1024 - 1])
                 line = "mkfile %s gen:%d:%d" % (hx(f), n, rng.randint(1, 99))
             else:
                 b = bytes([i]) + rng.randbytes(rng.choice([0, 1, 30, 4000]))
@@ -333,7 +334,14 @@ def commit_faults(dual, oid, line, modes=("500", "drop"), limit=None, rng=None):
     targets = list(range(1, len(log) + 1))
     if limit and len(targets) > limit:
         # always the last eight requests (inventory installation, declaration swap), a sample of the rest
-        keep = set(targets[-8:]) | set(rng.sample(targets[:-8], limit - 8))
+        keep = set(targets[-8:])
+        # one request of every kind of a multipart upload (create, a part, complete) whenever the commit has any
+        for kind in ("CREATE_MPU", "UPLOAD_PART", "COMPLETE_MPU"):
+            ks = [i for i in targets if log[i - 1][0] == kind]
+            if ks:
+                keep.add(rng.choice(ks))
+        rest = [t for t in targets if t not in keep]
+        keep |= set(rng.sample(rest, max(0, min(len(rest), limit - len(keep)))))
         targets = sorted(keep)
     for k in targets:
         for mode in modes:
